@@ -168,6 +168,10 @@ func (h *Handle) Close() error {
 
 // Destroy closes the handle and removes its directory.
 func (h *Handle) Destroy() {
+	if h.MS != nil && h.MS.OpenTx() > 0 {
+		// a leaked write transaction makes bbolt's Close wait for ever: the leak has been reported, just drop the files
+		h.closed = true
+	}
 	h.Close()
 	if h.Dir != "" && h.Backend != "mem" {
 		os.RemoveAll(h.Dir)
